@@ -934,3 +934,9 @@ def replay_reader(model, name):
 
 
 REPLAY = {'C20/main[': replay_reader}
+
+
+# a load that the option readers accept must not make the numeric stage divide by zero: the constructors the readers call
+# are under contract with C08 (series RLC: no pole at a positive frequency, an explicit C = 0 is "no capacitor"; skin
+# effect: only positive conductivities are constructed); their obligations are part of this check as well
+EXTRA_UNITS = [('contracts.C08', 'U_RLC'), ('contracts.C08', 'U_SKIN_INIT')]
